@@ -131,10 +131,15 @@ def run(ctx, eng):
         for p in eng.I.run(fi):
             look = cm.calls_to(p, '_get_or_create_stream',
                                '_get_stream_by_id', '_begin_new_stream')
+            dec = cm.calls_to(p, '_decode_headers')
+            if p.exit != 'raise' and not dec:
+                # the connection lives on: the compression context must
+                # have seen this block, whatever becomes of the stream
+                bad.append('a path on which the connection survives does '
+                           'not decode the header block')
             if not look:
                 continue
             n += 1
-            dec = cm.calls_to(p, '_decode_headers')
             if not dec or p.index(dec[0]) > p.index(look[0]):
                 bad.append('stream lookup before the header block is '
                            'decoded')
@@ -192,7 +197,7 @@ def run(ctx, eng):
                'refused pushes are reset with REFUSED_STREAM',
                node=lst[0][2].node)
     ctx.record('push_refusal_sites', len(sites))
-    ctx.floor('push_refusal_sites', 2)
+    ctx.floor('push_refusal_sites', 1)
     check_push_leniency(ctx, eng)
     # ---- (c) DATA refill
     fi = eng.m.func(H + '_receive_data_frame')
@@ -260,8 +265,13 @@ def check_push_leniency(ctx, eng):
     for p in eng.I.run(fi):
         if p.exit == 'raise':
             continue
-        if not any(x.kind == 'catch' and 'NoSuchStreamError' in x.names
-                   for x in p.events):
+        # a quiet refusal (RST_STREAM for the promised id) that is not the
+        # stream machine's own answer for a live, closed parent
+        rst = [x for x in p.events if x.kind == 'new' and
+               x.cls == 'RstStreamFrame' and cm.attr_chain(
+                   p.state.objs.get(x.obj, {}).get('stream_id')) ==
+               'frame.promised_stream_id']
+        if not rst or cm.calls_to(p, 'receive_push_promise_in_band'):
             continue
         n += 1
         ok = False
